@@ -115,7 +115,7 @@ pub fn gen_api_plan(prop: Prop, seed: u64, tier: Tier, index: u64, batch_seed: u
     let known_avoid = !rng.chance(1, 10);
     let no_cancel = rng.chance(1, 5);
 
-    let n_clients = rng.range(2, 4);
+    let n_clients = rng.range(2, if tier == Tier::Thorough { 5 } else { 4 });
     let mut clients = Vec::new();
     for _ in 0..n_clients {
         let minor = match rng.below(10) {
@@ -138,7 +138,7 @@ pub fn gen_api_plan(prop: Prop, seed: u64, tier: Tier, index: u64, batch_seed: u
     for c in 0..n_clients {
         let n_tasks = rng.range(1, if prop == Prop::C05 { 2 } else { 3 });
         for _ in 0..n_tasks {
-            let n_ops = rng.range(6, 40);
+            let n_ops = rng.range(6, if tier == Tier::Thorough { 70 } else { 40 });
             let mut script = Vec::new();
             if rng.chance(2, 3) {
                 script.push(AOp::new(AKind::CreateObject, rng.next_u32() >> 8, 0, 0, 0));
